@@ -1,14 +1,17 @@
 //! Correspondence harness: runs the real tarpc code on scripted operation sequences and prints
 //! canonical observations as Coq terms (one case per line) for the model to be compared with.
 mod c13;
+mod c17;
 mod c19;
 mod c20;
 mod cli;
 mod exec;
 mod rng;
+mod shape;
 mod srv;
 mod stransport;
 mod vclock;
+mod wire;
 
 use exec::{write_cases, Case};
 use rng::Rng;
@@ -32,6 +35,10 @@ fn main() {
     let input = arg(&args, "--in");
     // silence panics caught by catch_unwind; they are observations, not crashes
     std::panic::set_hook(Box::new(|_| {}));
+    // WIRE/TIME layer (C15, C07, C16, `wire shape`): dispatched in wire.rs
+    if wire::dispatch(&args) {
+        return;
+    }
     match (prop, cmd) {
         ("c13", "gen") => {
             let mut rng = Rng::new(seed);
@@ -128,6 +135,21 @@ fn main() {
                 .filter_map(|l| c20::parse(l))
                 .map(|s| c20::to_case(&s))
                 .collect();
+            write_cases(&out.expect("--out"), &cases);
+        }
+        ("c17", "gen") => {
+            let mut rng = Rng::new(seed);
+            let mut w = open_out(&out);
+            for _ in 0..count {
+                writeln!(w, "{}", c17::show(&c17::gen(&mut rng))).unwrap();
+            }
+        }
+        ("c17", "sweep") => {
+            let mut w = open_out(&out);
+            c17::sweep(|d| writeln!(w, "{}", c17::show(&d)).unwrap());
+        }
+        ("c17", "run") => {
+            let cases: Vec<Case> = c17::run_scripts(&read_lines(&input));
             write_cases(&out.expect("--out"), &cases);
         }
         _ => {
